@@ -19,7 +19,8 @@ from . import confgen, c14
 PROP = "C18"
 RULE = ("cases: histories of 1-6 add() calls on configurators over 3-6 boolean items; rules plain, defaulted, Imply, with explicit and generated "
         "ids, bare items, and rules whose id collides with an existing top-level rule/item (must be refused). non-trivial: >=2 accepted additions "
-        "and at least one defaulted rule; distinct by digest of the history")
+        "and at least one defaulted rule; distinct by digest of the history"
+        ' Histories are trees (an addition may extend an earlier configurator); additions include bare items with integer bounds.')
 BUDGET = {"quick": (12, 120, 90), "thorough": (16, 1500, 1200)}
 PYTEST = True     # thorough tier also runs the repository's own tests under these monitors
 MANDATORY = ["judged:add==direct:state", "judged:add==direct:default_prios", "judged:add==direct:polyhedron", "judged:add==direct:select",
